@@ -27,7 +27,7 @@ PROPS = {
         note='manager contract assumed (prelude); uniform picking (probabilities) not covered; pick_cube (Vec<OptBool> output) covered only where listed in evidence',
     ),
     'C10': dict(
-        verus=[],
+        verus=['mtbdd'],
         kani=['mtbdd_terminal'],
         level='proof',
         design_ref='6/C10',
